@@ -32,8 +32,8 @@ type params struct {
 	Leaf     uint32         `json:"leaf"`
 	UpConc   int            `json:"upload_concurrency"`
 	DownConc int            `json:"download_concurrency"`
-	Mode     string         `json:"mode"`               // tree | keys
-	Keys     []string       `json:"keys,omitempty"`     // explicit key list
+	Mode     string         `json:"mode"`           // tree | keys
+	Keys     []string       `json:"keys,omitempty"` // explicit key list
 	SkipMiss bool           `json:"skip_missing"`
 	PredKind string         `json:"predicate,omitempty"` // prefix:<p> | suffix:<s> | hashmod:<m>:<r>
 	Seed     int64          `json:"seed"`
